@@ -150,3 +150,21 @@ def enumerate_valid_plans(R, k, cap=40, timeout_ms=20000):
                 break
             s.add(z3.Or([c != v for c, v in zip(cs, plan)]))
     return plans, complete
+
+
+def run_plan(R, plan, s0=None):
+    """R unrolled along a CONCRETE list of ground-instance indices (no choice variables): -> (applicable terms, states)"""
+    gas = instances(R)
+    s = s0 if s0 is not None else R.init_state()
+    states, app = [s], []
+    for i in plan:
+        a, objs = gas[i]
+        ok, s = R.step(s, a, R.bind(a, objs))
+        app.append(ok)
+        states.append(s)
+    return app, states
+
+
+def valid_plan(R, plan):
+    app, states = run_plan(R, plan)
+    return z3.And([R.initial_ok()] + app + [R.goal(states[-1]), traj_ok(R, states, len(plan))])
